@@ -52,6 +52,49 @@ theorem evalTo_recStrict_atom (s : Store) (w : World) (h : Nat) (v : Val) (hv : 
     | (simpa only [recStrict, forceArg, retV, Bind.bind, Comp.bind] using hk)
     | (exact absurd hv (by simp [isAtom]))
 
+/-- a traversal whose every step returns its element and changes nothing returns the list and changes nothing -/
+theorem evalTo_mapM'_id {α : Type} (s : Store) (w : World) (h : Nat) (f : α → Comp α) :
+    ∀ (as : List α), (∀ a ∈ as, EvalTo s w (f a) h a s w) → EvalTo s w (mapM' f as) h as s w := by
+  intro as
+  induction as with
+  | nil => intro _; exact EvalTo.ret _ _ _ _
+  | cons a as ih =>
+    intro hall
+    have h1 := hall a (by simp)
+    have h2 := ih (fun b hb => hall b (by simp [hb]))
+    simp only [mapM', Bind.bind, pure]
+    exact h1.bind (h2.bind (EvalTo.ret _ _ _ _))
+
+/-- **completely evaluated values** of nesting depth ≤ n: values without components, and lists of (already evaluated)
+completely evaluated values of smaller depth -/
+def DeepN : Nat → Val → Prop
+  | 0, v => isAtom v = true
+  | n + 1, v => isAtom v = true ∨ ∃ xs : List Val, v = .list (xs.map Arg.strict) ∧ ∀ x ∈ xs, DeepN n x
+
+/-- `recursive_strict` of a completely evaluated value is that value — at any nesting depth — and changes nothing -/
+theorem evalTo_recStrict_deep (s : Store) (w : World) (h : Nat) :
+    ∀ (n : Nat) (v : Val), DeepN n v → EvalTo s w (recStrict (.strict v)) h (.strict v) s w := by
+  intro n
+  induction n with
+  | zero => intro v hv; exact evalTo_recStrict_atom s w h v hv
+  | succ n ih =>
+    intro v hv
+    rcases hv with hv | ⟨xs, rfl, hall⟩
+    · exact evalTo_recStrict_atom s w h v hv
+    · have hmap : EvalTo s w (mapM' (fun x => callArg (.recStrict x)) (xs.map Arg.strict)) h (xs.map Arg.strict) s w := by
+        refine evalTo_mapM'_id s w h _ _ ?_
+        intro a ha
+        simp only [List.mem_map] at ha
+        obtain ⟨x, hx, rfl⟩ := ha
+        have := (ih x (hall x hx)).toEval Res.arg
+        refine EvalTo.callArg ?_
+        simpa only [expand, Bind.bind, pure] using this
+      have hrec : recStrict (.strict (.list (xs.map Arg.strict))) =
+          (mapM' (fun x => callArg (.recStrict x)) (xs.map Arg.strict)).bind (fun zs => retV (.list zs)) := by
+        simp only [recStrict, forceArg, Bind.bind, Comp.bind]
+      rw [hrec]
+      exact hmap.bind (f := fun zs => retV (.list zs)) (EvalTo.ret _ _ _ _)
+
 /-- applying the built-in `ㄱㅅ` to an evaluated value without components gives the action that returns it; nothing
 else happens -/
 theorem eval_apply_return (s : Store) (w : World) (h : Nat) (sp : Span) (n : Int) (v : Val)
@@ -89,6 +132,30 @@ theorem exec_right_identity {s w h argv sp m v s1 w1} (n : Int)
   have hname : isBuiltinName n = true := by simp only [isBuiltinName, hn]; decide
   refine exec_bind_cc (f := .builtin n) (rv := .io .ret [.strict v] sp none) ?_ h1
     (eval_apply_return s1 w1 h sp n v hb hv) (EvalTo.forceStrict _ _ _ _) rfl (exec_return s1 w1 h sp v hio)
+  simp only [checkCallee, hname, if_true]
+
+/-- applying `ㄱㅅ` to a completely evaluated value (of any nesting depth) gives the action that returns it; nothing else happens -/
+theorem eval_apply_return_deep (s : Store) (w : World) (h : Nat) (sp : Span) (n : Int) (d : Nat) (v : Val)
+    (hb : builtinOf n = some bReturn) (hv : DeepN d v) :
+    Eval s w (.comp (expand (.apply (.builtin n) sp [.strict v]))) h
+      (.ok (.arg (.strict (.io .ret [.strict v] sp none)))) s w := by
+  simp only [expand, applyCallee, hb, bReturn, checkArity, mapM', callArg, List.length_cons, List.length_nil,
+    List.contains_cons, List.contains_nil, Bind.bind, Comp.bind, pure]
+  refine .callOk (x := .arg (.strict v)) (s1 := s) (w1 := w) ?_ ?_
+  · have := (evalTo_recStrict_deep s w h d v hv).toEval Res.arg
+    simpa only [expand, Bind.bind, pure] using this
+  · simp only [Comp.bind, retV]
+    exact .ret _ _ _ _
+
+/-- **right identity, any completely evaluated result**: numbers, strings, …, and lists of such values nested to any depth -/
+theorem exec_right_identity_deep {s w h argv sp m v s1 w1} (n : Int) (d : Nat)
+    (hn : encodeNumber n = [0, 6]) (hv : DeepN d v) (hio : v.isIO = false)
+    (h1 : Exec s w m h (.strict v) s1 w1) :
+    Exec s w (.io .bind argv sp (some (m, .builtin n, none))) h (.strict v) s1 w1 := by
+  have hb : builtinOf n = some bReturn := by simp [builtinOf, hn]
+  have hname : isBuiltinName n = true := by simp only [isBuiltinName, hn]; decide
+  refine exec_bind_cc (f := .builtin n) (rv := .io .ret [.strict v] sp none) ?_ h1
+    (eval_apply_return_deep s1 w1 h sp n d v hb hv) (EvalTo.forceStrict _ _ _ _) rfl (exec_return s1 w1 h sp v hio)
   simp only [checkCallee, hname, if_true]
 
 /-- **sequencing (left-nested associativity).**  Executing `(m ㄱㄹ f) ㄱㄹ g` executes `m` (`w → w1`), evaluates `f` on its
